@@ -390,3 +390,83 @@ Proof.
     destruct (Qlt_le_dec (dot r [1 # 2; 1 # 2]) (dot v [1 # 2; 1 # 2])) as [Hl|Hg]; [exact Hl|].
     apply Qle_bool_iff in Hg. congruence.
 Qed.
+
+(* ================================================================ Round 6 *)
+From AIT Require Import C12.ModelUseful C12.ProofsUseful.
+
+(* ---------------------------------------------------------------- extractBestUsefulPoints *)
+(* [sup W p] = (index, value) of the hyperplane findBestAtPoint selects at p (code's tie-break);
+   by findBestAtPoint_max the value is the upper envelope of W at p.
+   If the model returns (kept, rest) (= no unchecked access, no fuel exhaustion):
+   (1) kept ++ rest is a permutation of the input points;
+   (2) an empty hyperplane range keeps nothing and leaves the array untouched;
+   (3) every input point p is covered: some kept point q supports the SAME hyperplane with at least
+       p's value — so per hyperplane the best supporting point survives.
+   (The stronger "max over kept of w.p = max over all of w.p for every w" is false for the code, see
+   ex_useful_not_envelope.) *)
+Theorem useful_points_cover : forall (A : Type) (proj : A -> vec) (W : list A) (pts kept rest : list vec),
+  extractBestUsefulPoints A proj W pts = Some (kept, rest) ->
+  Permutation (kept ++ rest) pts
+  /\ (W = [] -> kept = [] /\ rest = pts)
+  /\ (W <> [] -> forall p, In p pts ->
+        exists q j vp vq, In q kept /\ sup A proj W p = Some (j, vp) /\ sup A proj W q = Some (j, vq) /\ vp <= vq).
+Proof. exact useful_points_gen. Qed.
+Print Assumptions useful_points_cover.
+
+(* at most one kept point per hyperplane: two kept slots supporting the same hyperplane are the same slot *)
+Theorem useful_one_per_plane : forall (A : Type) (proj : A -> vec) (W : list A) (pts kept rest : list vec),
+  extractBestUsefulPoints A proj W pts = Some (kept, rest) ->
+  forall i i' q q' j v v', nth_error kept i = Some q -> nth_error kept i' = Some q' ->
+    sup A proj W q = Some (j, v) -> sup A proj W q' = Some (j, v') -> i = i'.
+Proof. exact useful_distinct_gen. Qed.
+Print Assumptions useful_one_per_plane.
+
+(* the support index is in range and the support value is the upper envelope at the point *)
+Theorem useful_sup_is_envelope : forall (A : Type) (proj : A -> vec) (W : list A) p j v,
+  sup A proj W p = Some (j, v) -> (j < length W)%nat /\ v == env (map proj W) p.
+Proof. exact sup_env. Qed.
+Print Assumptions useful_sup_is_envelope.
+
+(* the driver's checker for clause (3) is sound *)
+Theorem useful_coverb_ok : forall W kept pts, useful_coverb W kept pts = true ->
+  forall p, In p pts ->
+    exists q j vp vq, In q kept /\ supV W p = Some (j, vp) /\ supV W q = Some (j, vq) /\ vp <= vq.
+Proof. exact useful_coverb_sound. Qed.
+Print Assumptions useful_coverb_ok.
+
+Example ex_useful_run :
+  extractBestUsefulPointsV [[1;0];[0;1];[-1;-1]] [[1#2;1#2];[3#4;1#4];[1;0];[1#4;3#4];[0;1]]
+  = Some ([[1;0];[0;1]], [[1#4;3#4];[3#4;1#4];[1#2;1#2]]).
+Proof. vm_compute. reflexivity. Qed.
+Example ex_useful_empty_planes : extractBestUsefulPointsV [] [[1#2;1#2];[1;0]] = Some ([], [[1#2;1#2];[1;0]]).
+Proof. vm_compute. reflexivity. Qed.
+(* both points support plane (0,2); the kept one is its best point (0,1); plane (1,0) then has value 0
+   on the kept set although it reaches 1/2 on the input *)
+Example ex_useful_not_envelope :
+  extractBestUsefulPointsV [[1;0];[0;2]] [[1#2;1#2];[0;1]] = Some ([[0;1]], [[1#2;1#2]])
+  /\ env [[0;1]] [1;0] < env [[1#2;1#2];[0;1]] [1;0].
+Proof. vm_compute. split; reflexivity. Qed.
+
+(* ---------------------------------------------------------------- findBestDeltaDominated *)
+(* [ddomb point delta base x]: x is strictly higher than base at the point and
+   (val x - val base) / |x - base| > delta (square root eliminated).  The function returns
+   None (= end) only if no entry delta-dominates [plane]; otherwise an entry that is strictly higher
+   than [plane] at the point, that delta-dominates [plane] or an EARLIER entry, and that no LATER entry
+   delta-dominates (the chain of successive
+   delta-dominators found in one left-to-right pass ends there). *)
+Theorem findBestDeltaDominated_chain_end : forall (A : Type) (proj : A -> vec) (point : vec) (delta : Q)
+    (plane : vec) (l : list A),
+  match findBestDeltaDominated A proj point delta plane l with
+  | None => forall x, In x l -> ddomb point delta plane (proj x) = false
+  | Some i => exists a, nth_error l i = Some a /\ dot point plane < dot point (proj a)
+                /\ (forall x, In x (skipn (S i) l) -> ddomb point delta (proj a) (proj x) = false)
+                /\ exists base, (base = plane \/ exists k b, (k < i)%nat /\ nth_error l k = Some b /\ base = proj b)
+                                /\ ddomb point delta base (proj a) = true
+  end.
+Proof. exact findBestDeltaDominated_gen. Qed.
+Print Assumptions findBestDeltaDominated_chain_end.
+
+Example ex_delta_dominated :
+  findBestDeltaDominatedV [1#2;1#2] (1#2) [0;0] [[1;0];[0;1];[2;2];[2;3]] = Some 2%nat
+  /\ findBestDeltaDominatedV [1#2;1#2] 4 [0;0] [[1;0];[0;1]] = None.
+Proof. vm_compute. split; reflexivity. Qed.
